@@ -722,8 +722,15 @@ where
                                             }
                                         });
                                     };
-                                    if !buffered_lcs.remove(&lc2.id) && moved_msgs != lc2_msgs {
-                                        println!("merged lc was not in buffered_lcs or its msgs not buffered anymore!\n {:?}\n {:?} msg #{}, moved_msgs={} vs {}", prev_lc, lc2, last_msg_index, moved_msgs, lc2_msgs);
+                                    if !buffered_lcs.remove(&lc2.id) {
+                                        // lc2 was already confirmed (and thus published) but is invalid now.
+                                        // Remove it from the published lifecycles as no msg refers to it any longer:
+                                        lcs_w.empty(lc2.id);
+                                        lcs_w.refresh();
+                                        last_lcw_refresh_index += 1;
+                                        if moved_msgs != lc2_msgs {
+                                            println!("merged lc was not in buffered_lcs or its msgs not buffered anymore!\n {:?}\n {:?} msg #{}, moved_msgs={} vs {}", prev_lc, lc2, last_msg_index, moved_msgs, lc2_msgs);
+                                        }
                                     }
                                     remove_last_lc = true;
                                 } else {
